@@ -180,12 +180,13 @@ Fixpoint view_from (ix : nat) (its : list arg) (sts : list istate) : lv :=
   | a :: its', st :: sts' => (if present st then [(ix, a)] else []) ++ view_from (S ix) its' sts'
   | _, _ => []
   end.
-Definition view (s : state) : lv := view_from 0 (items s) (ist s).
+Definition view (s : state) : lv :=
+  view_from (sc_start s) (skipn (sc_start s) (items s)) (skipn (sc_start s) (ist s)).
 
 Record Sim (n : nat) (s : state) (l : lv) : Prop := mkSim {
   sim_items : length (items s) = n;
   sim_ist : length (ist s) = n;
-  sim_start : sc_start s = 0;
+  sim_start : sc_start s <= n;
   sim_end : sc_end s = n;
   sim_view : view s = l;
   sim_rem : remaining s = length l }.
@@ -213,8 +214,8 @@ Qed.
 Lemma find_item_view n s l f :
   Sim n s l -> find_item s (fun _ a => f a) = option_map fst (afind f l).
 Proof.
-  intros [Hi Hs H0 He Hv _]. unfold find_item. rewrite H0. cbn [skipn]. rewrite He. subst l.
-  unfold view. apply find_from_view; lia.
+  intros [Hi Hs H0 He Hv _]. unfold find_item. rewrite He. subst l.
+  unfold view. apply find_from_view; rewrite !skipn_length; lia.
 Qed.
 
 Lemma afind_in f l i a : afind f l = Some (i, a) -> In (i, a) l /\ f a = true.
@@ -240,12 +241,14 @@ Proof.
 Qed.
 
 Lemma view_in n s l i a :
-  Sim n s l -> (In (i, a) l <-> nth_error (items s) i = Some a /\ present_at s i = Some true).
+  Sim n s l -> (In (i, a) l <-> sc_start s <= i /\ nth_error (items s) i = Some a /\ present_at s i = Some true).
 Proof.
   intros HS. rewrite <- (sim_view _ _ _ HS). unfold view. rewrite view_from_in. split.
-  - intros (k & st & -> & H1 & H2 & H3). cbn. split; [exact H1|]. unfold present_at, ist_at. rewrite H2. cbn. f_equal. exact H3.
-  - intros [H1 H2]. unfold present_at, ist_at in H2. destruct (nth_error (ist s) i) as [st|] eqn:E; [|discriminate].
-    cbn in H2. inversion H2. exists i, st. repeat split; auto.
+  - intros (k & st & -> & H1 & H2 & H3). rewrite nth_error_skipn in H1. rewrite nth_error_skipn in H2. split; [lia|]. split; [exact H1|].
+    unfold present_at, ist_at. rewrite H2. cbn. f_equal. exact H3.
+  - intros (Hle & H1 & H2). unfold present_at, ist_at in H2. destruct (nth_error (ist s) i) as [st|] eqn:E; [|discriminate].
+    cbn in H2. inversion H2. exists (i - sc_start s), st. rewrite !nth_error_skipn.
+    replace (sc_start s + (i - sc_start s)) with i by lia. repeat split; auto; lia.
 Qed.
 
 (* the first components of a view are strictly increasing, hence distinct *)
@@ -263,18 +266,19 @@ Proof.
   intros HS. unfold get, aget.
   destruct (find (fun p => Nat.eqb (fst p) i) l) as [[j a]|] eqn:F; cbn.
   - apply find_some in F. destruct F as [Hin Hj]. cbn in Hj. apply Nat.eqb_eq in Hj. subst j.
-    apply (view_in _ _ _ _ _ HS) in Hin. destruct Hin as [Ha Hp].
+    apply (view_in _ _ _ _ _ HS) in Hin. destruct Hin as (Hle & Ha & Hp).
     assert (Hsc : in_scope s i = true).
-    { unfold in_scope. rewrite (sim_start _ _ _ HS), (sim_end _ _ _ HS).
+    { unfold in_scope. rewrite (sim_end _ _ _ HS).
       apply andb_true_intro. split; [apply Nat.leb_le; lia|apply Nat.ltb_lt].
       rewrite <- (sim_items _ _ _ HS). apply nth_error_Some. congruence. }
     rewrite Hsc. unfold present_at in Hp. destruct (ist_at s i) as [st|]; [|discriminate].
     cbn in Hp. inversion Hp as [Hp']. rewrite Hp'. cbn. exact Ha.
   - destruct (in_scope s i && match ist_at s i with Some st => present st | None => false end) eqn:E; [|reflexivity].
-    apply andb_prop in E. destruct E as [_ E]. destruct (ist_at s i) as [st|] eqn:Es; [|discriminate].
+    apply andb_prop in E. destruct E as [Esc E]. destruct (ist_at s i) as [st|] eqn:Es; [|discriminate].
     destruct (nth_error (items s) i) as [a|] eqn:Ea; [|reflexivity].
     exfalso. assert (Hin : In (i, a) l).
-    { apply (view_in _ _ _ _ _ HS). split; [exact Ea|]. unfold present_at. rewrite Es. cbn. f_equal. exact E. }
+    { apply (view_in _ _ _ _ _ HS). unfold in_scope in Esc. apply andb_prop in Esc. destruct Esc as [E1 _]. apply Nat.leb_le in E1.
+      split; [exact E1|]. split; [exact Ea|]. unfold present_at. rewrite Es. cbn. f_equal. exact E. }
     pose proof (find_none _ _ F _ Hin) as Hn. cbn in Hn. rewrite Nat.eqb_refl in Hn. discriminate.
 Qed.
 
@@ -310,22 +314,34 @@ Qed.
 Lemma upd_length {A} ix (v : A) l : length (update_nth ix v l) = length l.
 Proof. revert ix. induction l as [|x t IH]; intros [|ix]; cbn; auto. Qed.
 
+Lemma skipn_update {A} a i (v : A) l : a <= i ->
+  skipn a (update_nth i v l) = update_nth (i - a) v (skipn a l).
+Proof.
+  revert i l. induction a as [|a IH]; intros i l H; [rewrite Nat.sub_0_r; reflexivity|].
+  destruct l as [|x t].
+  - destruct i as [|i]; [lia|]. cbn. destruct (i - a); reflexivity.
+  - destruct i as [|i]; [lia|]. cbn. apply IH. lia.
+Qed.
+
 Lemma sremove_sim n s l k i a :
   Sim n s l -> In (i, a) l -> Sim n (sremove k i s) (aremove i l).
 Proof.
-  intros HS Hin. pose proof (proj1 (view_in _ _ _ _ _ HS) Hin) as [Ha Hp].
+  intros HS Hin. pose proof (proj1 (view_in _ _ _ _ _ HS) Hin) as (Hle & Ha & Hp).
   unfold present_at in Hp. destruct (ist_at s i) as [st|] eqn:Es; [|discriminate]. cbn in Hp. inversion Hp as [Hp'].
   assert (Hsc : in_scope s i = true).
-  { unfold in_scope. rewrite (sim_start _ _ _ HS), (sim_end _ _ _ HS).
+  { unfold in_scope. rewrite (sim_end _ _ _ HS).
     apply andb_true_intro. split; [apply Nat.leb_le; lia|apply Nat.ltb_lt].
     rewrite <- (sim_items _ _ _ HS). apply nth_error_Some. congruence. }
   unfold sremove. rewrite Hsc, Es, Hp'. cbn [andb].
   destruct HS as [Hi Hs H0 He Hv Hr].
-  destruct (view_from_remove 0 (items s) (ist s) i st Es Hp' ltac:(lia)) as [E1 E2].
-  cbn [Nat.add] in E1.
+  assert (Es' : nth_error (skipn (sc_start s) (ist s)) (i - sc_start s) = Some st).
+  { rewrite nth_error_skipn. replace (sc_start s + (i - sc_start s)) with i by lia. exact Es. }
+  destruct (view_from_remove (sc_start s) (skipn (sc_start s) (items s)) (skipn (sc_start s) (ist s)) (i - sc_start s) st Es' Hp'
+              ltac:(rewrite !skipn_length; lia)) as [E1 E2].
+  replace (sc_start s + (i - sc_start s)) with i in E1 by lia.
   constructor; cbn; auto.
   - rewrite upd_length. exact Hs.
-  - unfold view. cbn. rewrite E1. unfold view in Hv. rewrite Hv. reflexivity.
+  - unfold view. cbn. rewrite skipn_update by exact Hle. rewrite E1. unfold view in Hv. rewrite Hv. reflexivity.
   - rewrite Hr. unfold view in Hv. rewrite <- Hv. rewrite <- E1. lia.
 Qed.
 
@@ -413,7 +429,7 @@ Proof.
   rewrite (find_item_view n s l _ HS).
   destruct (afind is_word l) as [[i a]|] eqn:F; cbn [option_map fst].
   - apply afind_in in F. destruct F as [Hin Hw].
-    pose proof (proj1 (view_in _ _ _ _ _ HS) Hin) as [Ha _]. rewrite Ha.
+    pose proof (proj1 (view_in _ _ _ _ _ HS) Hin) as (_ & Ha & _). rewrite Ha.
     destruct a; try discriminate Hw; apply convert_sim; eapply sremove_sim; eauto.
   - cbn. split; [split; reflexivity|exact HS].
 Qed.
